@@ -15,7 +15,8 @@ extra4 = " This time put the change into SUPPORT code rather than into the main 
 extra5 = " This time make the change manifest ONLY when TWO features or options are combined, each of which alone still behaves correctly - for example: a thread pool AND bytes already present in the file before the table; a dup'ed fileset handle AND a filename or reader filter; a seek AND an iterator bound (get_prefix / get_range); compression AND verify_checksums; the empty key AND a merge function; a non-default option value AND one particular API entry point or tool flag; two iterators on one object used alternately. Look for the place where the two code paths meet (a shared field, a shared helper, an option read in two places)."
 extra6 = " This time make each change look like a PERFORMANCE OPTIMISATION or a CLEAN-UP a maintainer might commit: a cache or memo of the last result, a fast path for the common case, an early exit, hoisting a computation out of a loop, reusing a buffer instead of reallocating, skipping work that looks redundant, replacing a general routine by a specialised one, merging two similar branches - correct for ordinary use and wrong in one specific corner (a boundary size, an empty or repeated key, a second call, a particular order of calls, a rarely used option)."
 extra7 = " This time put the change into an ERROR-HANDLING, CLEAN-UP or LIFETIME path: what happens when something returns NULL or failure, when an object is destroyed early or in an unusual order, when an iterator or handle is reused after it reported failure, when a second object of the same kind exists at the same time, when an operation is repeated (two seeks in a row, two reloads in a row, destroy right after init) - paths that ordinary use seldom takes. The property must fail there while the straight-line path stays correct."
-extra = extra7 if rnd >= 7 else extra6 if rnd >= 6 else extra5 if rnd >= 5 else extra4 if rnd >= 4 else extra3 if rnd >= 3 else (f" {2 * rnd - 2} earlier changes already exist under {wt}/mutation/1 .. {wt}/mutation/{2 * rnd - 2} (read their README.md files): yours must use DIFFERENT mechanisms and different functions from those, and should aim at parts of the property statement (and of its quantifier: unusual configurations, options, tools, API entry points, boundary sizes) that the earlier ones do not touch." if round2 else "")
+extra8 = " This time make the change an ARITHMETIC or REPRESENTATION slip: the width or signedness of an integer (size_t / uint32_t / int / ssize_t mixed), a length computed one too large or too small, an offset that forgets a header or a trailer, a comparison of lengths before a memcmp, a shift or mask off by one bit, a multiplication or addition that wraps near a limit, a count that is updated before instead of after (or per call instead of per element), a unit mix-up (bytes vs entries vs blocks), a boundary written as < where <= is meant - showing only at a specific size, count, offset or value (a power of two, a length of 0 / 1 / 127 / 128 / 16383 / 16384 / 65535 / 65536, the first or last element, an exact fit) while ordinary values stay correct."
+extra = extra8 if rnd >= 8 else extra7 if rnd >= 7 else extra6 if rnd >= 6 else extra5 if rnd >= 5 else extra4 if rnd >= 4 else extra3 if rnd >= 3 else (f" {2 * rnd - 2} earlier changes already exist under {wt}/mutation/1 .. {wt}/mutation/{2 * rnd - 2} (read their README.md files): yours must use DIFFERENT mechanisms and different functions from those, and should aim at parts of the property statement (and of its quantifier: unusual configurations, options, tools, API entry points, boundary sizes) that the earlier ones do not touch." if round2 else "")
 print(f"""You are helping test a verification framework by producing realistic *breaking changes* (mutations) to a C library. Work ONLY inside the git worktree {wt} (a checkout of the farsightsec/mtbl library: immutable sorted string tables, LevelDB-style). Do NOT read or write /repo or /verif or any other worktree under /tmp.
 
 Build recipe for the worktree (about 25 s): cd {wt} && autoreconf -fi >/dev/null 2>&1 && ./configure >/dev/null 2>&1 && make -j16 >/dev/null 2>&1 && make check 2>&1 | grep -E '^# (TOTAL|PASS|FAIL)'   (must report 15 passing tests). Object files can also be compiled directly: gcc -O1 -g -include {wt}/config.h -I{wt} -I{wt}/mtbl -c {wt}/mtbl/*.c {wt}/libmy/{{crc32c,crc32c-slicing,crc32c-sse42,heap,my_fileset}}.c ; link with -lz -llz4 -lzstd -lsnappy -lpthread.
